@@ -16,7 +16,7 @@ import ast
 from typing import Dict, List, Optional, Tuple
 
 from .callgraph import CallGraph
-from .src import AnalysisError, ClassInfo, FuncInfo, Repo, norm
+from .src import AnalysisError, ClassInfo, FuncInfo, Repo, norm, walk_local
 
 KINDS = ('COMMENT', 'STRING', 'LPAREN', 'RPAREN', 'SLASH', 'ROLE', 'SYMBOL', 'ALIGNMENT', 'UNEXPECTED')
 EOF = 'EOF'
@@ -709,10 +709,12 @@ class Interp:
             for r, e2, t2 in (self.expr(fi, e.value, env, st, stack) if e.value is not None else [(C(None), env, st)]):
                 if isinstance(r, Exc):
                     out.append((r, e2, t2))
-                else:
+                elif fi.fq in getattr(self, '_obs_funcs', {fi.fq}):
                     t3 = t2.fork()
                     t3.yields = t3.yields + (self.consumed(t3),)
                     out.append((C(None), e2, t3))
+                else:
+                    out.append((C(None), e2, t2))          # a helper generator: the value goes to its consumer, nothing is handed to the caller of the entry
             return out
         if isinstance(e, ast.YieldFrom):
             # `yield from f(...)` where f is an interpreted generator: its yields are recorded by the callee
@@ -973,6 +975,7 @@ class Interp:
         """Observations of entry(s): {token kind sequence (with EOF if reached): {observation}}"""
         obs: Dict[tuple, set] = {}
         st0 = State()
+        self._obs_funcs = self._observation_generators(fi)
         try:
             results = self.call(fi, None, [UNK], {}, st0, 0)
         except Hang:
@@ -985,6 +988,38 @@ class Interp:
             else:
                 o = self.classify_exc(val, st)
             obs.setdefault(seq, set()).add(o)
+        return obs
+
+    def _observation_generators(self, entry: FuncInfo) -> set:
+        """The entry and the generators it re-yields with `yield from`: their yields are the trees handed to the caller (observations).
+        Any other generator function of the module is a helper whose yields are values for its consumer: it is run eagerly, which is only
+        the same as the real (lazy) run if the consumer drains it on the spot - anything else fails closed."""
+        obs = {entry.fq}
+        todo = [entry]
+        while todo:
+            f = todo.pop()
+            for n in walk_local(f.node):
+                if isinstance(n, ast.YieldFrom) and isinstance(n.value, ast.Call):
+                    for t in self.cg.resolve_call(n.value, f):
+                        if t.kind == 'func' and t.func.fq not in obs:
+                            obs.add(t.func.fq)
+                            todo.append(t.func)
+        mod = entry.module
+        gens = {g.fq for g in mod.all_funcs if any(isinstance(x, (ast.Yield, ast.YieldFrom)) for x in walk_local(g.node))}
+        for f in mod.all_funcs:
+            pm = self.repo.parent_map(f.node)
+            for n in walk_local(f.node):
+                if not isinstance(n, ast.Call):
+                    continue
+                ts = [t.func.fq for t in self.cg.resolve_call(n, f) if t.kind == 'func']
+                if not any(fq in gens and fq not in obs for fq in ts):
+                    continue
+                par = pm.get(id(n))
+                drained = (isinstance(par, ast.Call) and ((isinstance(par.func, ast.Attribute) and par.func.attr == 'extend') or norm(par.func) in ('list', 'tuple'))
+                           and n in par.args)
+                if not drained:
+                    raise AnalysisError(f'E6: the generator helper called at {f.fq}:{n.lineno} is not drained on the spot (extend/list/tuple): its lazy evaluation '
+                                        f'order is not modelled')
         return obs
 
     def classify_exc(self, exc: Exc, st: State):
